@@ -108,6 +108,17 @@ Theorem C14_listener_pool : forall buf, 1 <= buf -> 1 <= pool_size lspec buf.
 Proof. exact pool_positive. Qed.
 Print Assumptions C14_listener_pool.
 
+(* every channel-buffer option, 0 included, gives a non-empty pool (the pool has one slot more than the option and is built
+   when still nil: since fix b34bd23), so the protocol theorem holds for every option value *)
+Theorem C14_listener_pool_any : forall buf, 1 <= pool_size lspec buf.
+Proof. exact pool_always_positive. Qed.
+Print Assumptions C14_listener_pool_any.
+Theorem C14_listener_any_buffer : forall (M : Type) (buf : nat) (ms : list M) s,
+  maximal (pool_size lspec buf) (queue_size lspec buf) (close_count lspec buf) (Listener.init (pool_size lspec buf) ms) s ->
+  final s /\ processed s = ms /\ pool s = pool_size lspec buf /\ q s = [].
+Proof. intros M buf ms s Hm. exact (maximal_final _ _ _ ms s (pool_always_positive buf) Hm). Qed.
+Print Assumptions C14_listener_any_buffer.
+
 (* every execution is finite (no livelock): the successor relation is well founded, for all P, B, K *)
 Theorem C14_listener_terminates : forall (M : Type) (P B K : nat), well_founded (fun s' s : @st M => In s' (steps P B K s)).
 Proof. intros M P B K. exact (steps_wf P B K). Qed.
